@@ -117,7 +117,7 @@ class G:
             add("map", "|>", "O", lambda: [("mk_inc(%d)" % self.nid(), 0)], "map/callexpr")
             add("map", "|>", "OO", one("v", "u32", "&v", "if v > 3 { Some(v) } else { None }", "Option<u32>"))
             add("map", "|>", "OP", one("v", "u32", "&v", "(v, v / 2)", "(u32, u32)"))
-            add("and_then", "=>", "O", one("v", "u32", "&v", "if v % 2 == 1 { Some(v * 2) } else { None }", "Option<u32>"))
+            add("and_then", "=>", "O", one("v", "u32", "&v", "if v % 2 == 1 { Some(v.wrapping_mul(2)) } else { None }", "Option<u32>"))
             add("and_then", "=>", "O", lambda: [("some_even::<%d>" % self.nid(), 0)], "and_then/fnpath")
             add("filter", "?>", "O", one("v", "&u32", "v", "*v > 2", "bool"))
             add("filter", "?>", "O", lambda: [("is_big::<%d>" % self.nid(), 0)], "filter/fnpath")
@@ -147,7 +147,7 @@ class G:
             add("and_then", "=>", "R", one("v", "u32", "&v", "if v % 2 == 0 { Ok(v / 2) } else { Err(9u8) }", "Result<u32, u8>"))
             add("and_then", "=>", "R", lambda: [("ok_small::<%d>" % self.nid(), 0)], "and_then/fnpath")
             add("or", "<|", "R", lambda: [self.val(self.rng.choice(["Ok::<u32, u8>(7)", "Err::<u32, u8>(6)"]))])
-            add("or_else", "<=", "R", one("e", "u8", "&e", "if e > 4 { Ok::<u32, u8>(e as u32) } else { Err(e + 1) }", "Result<u32, u8>"))
+            add("or_else", "<=", "R", one("e", "u8", "&e", "if e > 4 { Ok::<u32, u8>(e as u32) } else { Err(e.wrapping_add(1)) }", "Result<u32, u8>"))
             add("map_err", "!>", "R", one("e", "u8", "&e", "e.wrapping_add(1)", "u8"))
             if sync:
                 add("inspect", "??", "R", one("r", "&Result<u32, u8>", "r", "", None, annotate=True))
@@ -157,7 +157,7 @@ class G:
             add("dot", ">.", "I", lambda: [("into_iter()", 0)], "dot/into_iter")
             add("dot", "..", "B", lambda: [("is_ok()", 0)], "dot/is_ok")
             add("then", "->", "O", one("r", "Result<u32, u8>", "&r", "r.ok()", "Option<u32>", annotate=True))
-            add("then", "->", "R", one("r", "Result<u32, u8>", "&r", "r.map(|x| x + 1)", "Result<u32, u8>", annotate=True))
+            add("then", "->", "R", one("r", "Result<u32, u8>", "&r", "r.map(|x| x.wrapping_add(1))", "Result<u32, u8>", annotate=True))
         elif w == "RR":
             add("flatten", "^^>", "R", lambda: [], "flatten/result")
             add("dot", "..", "B", lambda: [("is_err()", 0)], "dot/is_err")
@@ -168,7 +168,7 @@ class G:
             add("map", "|>", "IP", one("v", "u32", "&v", "(v, v % 3)", "(u32, u32)"))
             add("map", "|>", "IO", one("v", "u32", "&v", "if v % 2 == 0 { Some(v) } else { None }", "Option<u32>"))
             add("map", "|>", "IR", one("v", "u32", "&v", "if v % 3 == 0 { Err(v as u8) } else { Ok(v) }", "Result<u32, u8>"))
-            add("map", "|>", "II", one("v", "u32", "&v", "vec![v, v + 1]", "Vec<u32>"))
+            add("map", "|>", "II", one("v", "u32", "&v", "vec![v, v.wrapping_add(1)]", "Vec<u32>"))
             add("filter", "?>", "I", one("v", "&u32", "v", "*v % 2 == 1", "bool"))
             add("filter", "?>", "I", lambda: [("mk_pred(%d)" % self.nid(), 0)], "filter/callexpr")
             add("filter_map", "?|>", "I", one("v", "u32", "&v", "if v > 2 { Some(v - 1) } else { None }", "Option<u32>"))
@@ -184,7 +184,7 @@ class G:
             add("try_fold", "?^@", "O", lambda: [self.val("0u32"), self.cb2(body="if v < 6 { Some(acc.wrapping_add(v)) } else { None }", rtype="Option<u32>")], "try_fold/option")
             add("try_fold", "?^@", "R", lambda: [self.val("2u32"), self.cb2(body="if v != 4 { Ok::<u32, u8>(acc.wrapping_add(v)) } else { Err(4u8) }", rtype="Result<u32, u8>")], "try_fold/result")
             add("find", "?@", "O", one("v", "&u32", "v", "*v > 2", "bool"))
-            add("find_map", "?|>@", "O", one("v", "u32", "&v", "if v > 3 { Some(v * 10) } else { None }", "Option<u32>"))
+            add("find_map", "?|>@", "O", one("v", "u32", "&v", "if v > 3 { Some(v.wrapping_mul(10)) } else { None }", "Option<u32>"))
             if sync:
                 add("inspect", "??", "I", lambda: [("|_: &_| { z0(%d); }" % self.nid(), 0)], "inspect/iter_sync")
             else:
@@ -261,7 +261,7 @@ class G:
                 add("map", "|>", "FP", lambda: [("inc::<%d>" % self.nid(), 0)], "fut/map_fnpath")
                 add("map", "|>", "FO", one("v", "u32", "&v", "if v > 3 { Some(v) } else { None }", "Option<u32>"), "fut/map")
                 add("map", "|>", "FFP", one("v", "u32", "&v", RDY + "(v.wrapping_mul(2))", R32), "fut/map_to_future")
-                add("map", "|>", "FV", one("v", "u32", "&v", "vec![v, v + 1]", "Vec<u32>"), "fut/map")
+                add("map", "|>", "FV", one("v", "u32", "&v", "vec![v, v.wrapping_add(1)]", "Vec<u32>"), "fut/map")
                 add("inspect", "??", "FP", one("v", "&u32", "v", "", None), "fut/inspect")
                 add("dot", "..", "FP", lambda: [("boxed()", 0)], "fut/dot_boxed")
                 add("dot", ">.", "S", lambda: [("into_stream()", 0)], "fut/dot_into_stream")
@@ -274,7 +274,7 @@ class G:
             elif w == "TF":
                 add("map", "|>", "TF", one("r", "Result<u32, u8>", "&r", "r.map(|x| x.wrapping_add(1))", "Result<u32, u8>"), "tryfut/map")
                 add("and_then", "=>", "TF", one("v", "u32", "&v", RDY + "(if v % 2 == 0 { Ok::<u32, u8>(v / 2) } else { Err(9u8) })", "futures::future::Ready<Result<u32, u8>>"), "tryfut/and_then")
-                add("or_else", "<=", "TF", one("e", "u8", "&e", RDY + "(if e > 4 { Ok::<u32, u8>(e as u32) } else { Err(e + 1) })", "futures::future::Ready<Result<u32, u8>>"), "tryfut/or_else")
+                add("or_else", "<=", "TF", one("e", "u8", "&e", RDY + "(if e > 4 { Ok::<u32, u8>(e as u32) } else { Err(e.wrapping_add(1)) })", "futures::future::Ready<Result<u32, u8>>"), "tryfut/or_else")
                 add("map_err", "!>", "TF", one("e", "u8", "&e", "e.wrapping_add(1)", "u8"), "tryfut/map_err")
                 add("inspect", "??", "TF", one("r", "&Result<u32, u8>", "r", "", None), "tryfut/inspect")
                 add("dot", "..", "FP", lambda: [("unwrap_or_else(|e| e as u32)", 0)], "tryfut/dot_unwrap_or_else")
@@ -291,7 +291,7 @@ class G:
                 add("map", "|>", "S", lambda: [("mk_inc(%d)" % self.nid(), 0)], "stream/map_callexpr")
                 add("map", "|>", "SP", one("v", "u32", "&v", "(v, v % 3)", "(u32, u32)"), "stream/map")
                 add("map", "|>", "SR", one("v", "u32", "&v", "if v % 3 == 0 { Err(v as u8) } else { Ok::<u32, u8>(v) }", "Result<u32, u8>"), "stream/map")
-                add("map", "|>", "SS", one("v", "u32", "&v", "futures::stream::iter(vec![v, v + 1])", None), "stream/map_to_stream")
+                add("map", "|>", "SS", one("v", "u32", "&v", "futures::stream::iter(vec![v, v.wrapping_add(1)])", None), "stream/map_to_stream")
                 add("filter", "?>", "S", one("v", "&u32", "v", RDY + "(*v % 2 == 1)", "futures::future::Ready<bool>"), "stream/filter")
                 add("filter_map", "?|>", "S", one("v", "u32", "&v", RDY + "(if v > 2 { Some(v - 1) } else { None })", "futures::future::Ready<Option<u32>>"), "stream/filter_map")
                 add("chain", ">@>", "S", lambda: [self.val("futures::stream::iter(vec![10u32, 11])")], "stream/chain")
@@ -577,7 +577,11 @@ def gen_prog(pid, rng, kind, length, force=None):
         sid = g.nid()
         src = "%s(%d)" % (fn, sid)
         src_cap = 0
-        if rng.random() < 0.15:
+        if start == "P" and rng.random() < 0.5:
+            # an initial value that binds weaker than a method call: unary, binary, cast, deref of a reference
+            src = rng.choice(["!%s", "%s ^ 3", "%s as u32", "*&%s", "%s + 1", "%s >> 1"]) % src
+            p.tags.add("sp:low_precedence_initial")
+        elif rng.random() < 0.15:
             src_cap = g.nid()
             src = "{ zc(%d); %s }" % (src_cap, src)
         p.srcs.append((sid, nshapes))
@@ -715,7 +719,8 @@ def render_prog(p, mode="twin"):
             if k >= len(st):
                 continue
             if k == 0:
-                recv = hoist(ctx, src, src_cap) if src_cap else src
+                # the reference applies the chain to the *value* of the initial expression
+                recv = hoist(ctx, src, src_cap) if src_cap else "(%s)" % src
             elif asy:
                 recv = "async move { %s }" % names[i]
             else:
